@@ -241,7 +241,7 @@ async fn run_case(c: &Case) -> CheckResult {
     let mut groups: Vec<(Vec<(IpAddr, u8)>, &Grp)> = Vec::new();
     for (i, g) in c.grps.iter().enumerate() {
         let prefixes: Vec<(IpAddr, u8)> = g.prefixes.iter().map(|(o, l)| (IpAddr::V4(Ipv4Addr::new(127, 0, 2, *o)), (*l).min(32))).collect();
-        rig.add_group(&GroupCfg { name: format!("g{i}"), prefixes: prefixes.clone(), as_number: asn(g.remote), local_asn: g.local.map(asn).unwrap_or(0), rs_client: g.rs, rr_client: g.rr, cluster_id: g.cluster.map(Ipv4Addr::from), holdtime: g.hold.map(|h| h as u64), families: fams(&g.fams) }).await;
+        rig.add_group(&GroupCfg { name: format!("g{i}"), prefixes: prefixes.clone(), as_number: asn(g.remote), local_asn: g.local.map(asn).unwrap_or(0), rs_client: g.rs, rr_client: g.rr, cluster_id: g.cluster.map(Ipv4Addr::from), holdtime: g.hold.map(|h| h as u64), families: fams(&g.fams), gr: None }).await;
         groups.push((prefixes, g));
     }
     let mut conns: Vec<(IpAddr, bool, Conn)> = Vec::new();
@@ -495,6 +495,104 @@ pub fn arb_case() -> impl Strategy<Value = Case> {
     (0u8..5, proptest::option::weighted(0.3, (0u8..5, proptest::collection::vec(0u8..5, 0..3))), proptest::collection::vec(nb, 0..4), proptest::collection::vec(grp, 0..3), proptest::collection::vec(op, 1..10)).prop_map(|(asn, confed, nbs, grps, ops)| Case { asn, confed, nbs, grps, ops })
 }
 
+// ---------------------------------------------------------------------------
+// a dynamic neighbour's state disappears when its last connection ends, also when the
+// session had negotiated graceful restart (PeerSession::run's delete-on-disconnect step)
+// ---------------------------------------------------------------------------
+
+pub const DYN_RULE: &str = "dynamic-sessions: a peer group with a dynamic-neighbour prefix, with or without graceful restart configured; a wire-level peer inside the prefix connects, optionally completes the OPEN exchange (advertising graceful restart with or without the N-bit, or not), optionally announces a route, and the connection ends (FIN, RST, Cease sent by the peer). After the daemon's session task has ended no neighbour entry is left for the address, and a later connection from it is treated as a new dynamic neighbour (it gets an OPEN). non-trivial := the session reached Established with graceful restart negotiated";
+
+#[derive(Clone, Debug, Serialize, Deserialize)]
+pub struct DynCase {
+    pub group_gr: bool,
+    pub group_nbit: bool,
+    /// 0 = close before OPEN, 1 = establish without GR, 2 = establish with GR, 3 = establish with GR + N-bit
+    pub peer: u8,
+    pub announce: bool,
+    /// 0 FIN, 1 RST, 2 Cease sent by the peer
+    pub end: u8,
+    pub reconnect: bool,
+}
+
+pub fn check_dynamic(c: &DynCase) -> CheckResult {
+    let rt = tokio::runtime::Builder::new_current_thread().enable_all().event_interval(1).build().map_err(|e| Failure::new("harness", e.to_string()))?;
+    rt.block_on(dynamic(c))
+}
+
+async fn dynamic(c: &DynCase) -> CheckResult {
+    use crate::props::wirepeer::{WirePeer, fresh_loopback};
+    use rustybgp_packet::bgp::{self, Message, Update};
+    let h = |e: String| Failure::new("harness", e);
+    let src = fresh_loopback();
+    let rig = std::rc::Rc::new(AdmitRig::new(65000, None).await.map_err(h)?);
+    let IpAddr::V4(v4src) = src else { unreachable!() };
+    let o = v4src.octets();
+    rig.add_group(&GroupCfg {
+        name: "dyn".into(),
+        prefixes: vec![(IpAddr::V4(Ipv4Addr::new(o[0], o[1], o[2], 0)), 24)],
+        as_number: 65100,
+        local_asn: 0,
+        rs_client: false,
+        rr_client: false,
+        cluster_id: None,
+        holdtime: Some(90),
+        families: vec![(Family::IPV4, 0)],
+        gr: if c.group_gr { Some((120, c.group_nbit, vec![Family::IPV4])) } else { None },
+    })
+    .await;
+    let mut p = WirePeer::on(rig.clone(), src);
+    p.connect().await?;
+    if !rig.has_peer(src).await {
+        return Err(Failure::new("dynamic", format!("a connection from {src}, inside the dynamic prefix, did not create a neighbour")).with("what", "not-created"));
+    }
+    let mut negotiated_gr = false;
+    if c.peer % 4 != 0 {
+        let mut caps = vec![Capability::MultiProtocol(Family::IPV4), Capability::FourOctetAsNumber(65100)];
+        if c.peer % 4 >= 2 {
+            caps.push(Capability::GracefulRestart { flags: if c.peer % 4 == 3 { 0x4 } else { 0 }, restart_time: 60, families: vec![(Family::IPV4, 0x80)] });
+            negotiated_gr = c.group_gr;
+        }
+        if !p.establish(65100, 0, 0x0a00_0007, caps.clone()).await? {
+            return Err(Failure::new("harness", "the session did not establish".to_string()));
+        }
+        if c.announce {
+            let mut codec = PeerCodec::negotiate(&caps, &caps);
+            let attr = std::sync::Arc::new(crate::cgen::AttrSpec { origin: Some(0), as_path: Some(vec![crate::cgen::Seg { t: 2, n: 1, base: 65100, asns: vec![] }]), ..Default::default() }.build());
+            let msg = Message::Update(Update::Reach { family: Family::IPV4, entries: vec![bgp::PathNlri { path_id: 0, nlri: crate::cgen::v4(10, 90, 0, 0, 16) }], nexthop: Some(bgp::Nexthop::V4(Ipv4Addr::new(192, 0, 2, 1))), attr });
+            p.send_msg(&mut codec, &msg).await?;
+        }
+        if c.end % 3 == 2 {
+            let mut codec = PeerCodec::new();
+            p.send_msg(&mut codec, &Message::Notification(rustybgp_packet::Notification::CeaseAdminShutdown)).await?;
+        }
+    }
+    if c.end % 3 == 1 {
+        p.set_linger_zero();
+    }
+    p.close().await?;
+    if rig.has_peer(src).await {
+        return Err(Failure::new("dynamic", format!("the dynamic neighbour {src} is still there after its only connection ended (group graceful restart: {}, negotiated: {negotiated_gr}, end: {})", c.group_gr, ["FIN", "RST", "Cease from the peer"][(c.end % 3) as usize])).with("what", "not-removed").with("negotiated_gr", negotiated_gr));
+    }
+    if c.reconnect {
+        p.connect().await?;
+        for _ in 0..200 {
+            p.settle().await;
+            if p.rx.len() >= 19 {
+                break;
+            }
+        }
+        if p.rx.len() < 19 || p.rx[18] != 1 {
+            return Err(Failure::new("dynamic", format!("a new connection from {src} after its state was removed did not get an OPEN")).with("what", "no-open"));
+        }
+        p.close().await?;
+    }
+    Ok(CaseInfo::nt(negotiated_gr && c.peer % 4 != 0).class_if(negotiated_gr, "dynamic/gr-negotiated").class_if(c.peer % 4 == 0, "dynamic/closed-before-open"))
+}
+
+pub fn arb_dynamic() -> impl Strategy<Value = DynCase> {
+    (any::<bool>(), any::<bool>(), 0u8..4, any::<bool>(), 0u8..3, any::<bool>()).prop_map(|(group_gr, group_nbit, peer, announce, end, reconnect)| DynCase { group_gr, group_nbit, peer, announce, end, reconnect })
+}
+
 pub fn run(r: &Run) {
     r.set_rule(RULE);
     r.assume("configured neighbours are passive (no outgoing connection attempts from the rig); IPv4 loopback source addresses stand for neighbour addresses; when several peer groups cover an address the session may follow any of them (the statement does not rank overlapping prefixes of different groups)");
@@ -508,12 +606,15 @@ pub fn run(r: &Run) {
         }
         FsmCase { local, send_max, remote }
     }), check_fsm_params);
+    r.assume(DYN_RULE);
+    r.prop("dynamic-sessions", r.tier.pick(3_000, 60_000), arb_dynamic, check_dynamic);
 }
 
 pub fn replay(sub: &str, case: &Value) -> Result<CheckResult, String> {
     match sub {
         "negotiate" => Ok(check_negotiate(&decode_case(case)?)),
         "fsm-parameters" => Ok(check_fsm_params(&decode_case(case)?)),
+        "dynamic-sessions" => Ok(check_dynamic(&decode_case(case)?)),
         _ => Ok(check(&decode_case(case)?)),
     }
 }
